@@ -1062,6 +1062,29 @@ def same_value(a, b) -> bool:
     return False
 
 
+def definitions_of(v, drop_none=True, _seen=None):
+    """The defining assignments a value may come from: alias chains (`a = b`) are followed and joins are flattened, so
+    `r = t` with t = phi(x1, x2) yields the Refs of x1 and x2.  A Ref is a leaf when its value is an expression."""
+    _seen = _seen if _seen is not None else set()
+    if id(v) in _seen:
+        return []
+    _seen.add(id(v))
+    if isinstance(v, Phi):
+        out = []
+        for o in v.options:
+            out.extend(definitions_of(o, drop_none, _seen))
+        return out
+    if isinstance(v, Ref):
+        if isinstance(v.value, (Ref, Phi)):
+            return definitions_of(v.value, drop_none, _seen)
+        if drop_none and isinstance(v.value, ast.Constant) and v.value.value is None:
+            return []
+        return [v]
+    if drop_none and isinstance(v, ast.Constant) and v.value is None:
+        return []
+    return [v]
+
+
 def unround(e):
     """Strip Ref identity and `round(x, p)` / `float(x)` / `abs`-free wrappers: the value being rounded."""
     changed = True
